@@ -35,7 +35,7 @@ RULE = ("write_enum: every (records R, modules M, fault position over the R*M mo
         "record-level and top-level fault sites and the fault-free control; write: Hypothesis cases with "
         "several simultaneous faults, larger R/M and random old bytes. A write case is non-trivial when "
         "at least one conversion succeeded before the fault (position > 0, or the fault only fires inside "
-        "json.dumps after every to_json returned). dir_enum: every subset (up to a size bound) of 15 entry "
+        "json.dumps after every to_json returned). dir_enum: every subset (up to a size bound) of 16 entry "
         "classes x run mode (fresh / reuse json inside / reuse json elsewhere) x output dir given or "
         "derived from the input name x working directory (scratch / a sub-directory of the output dir), "
         "plus 'absent' and 'is a file'; dir: Hypothesis trees with random names, nesting, bytes and "
@@ -571,6 +571,7 @@ ENTRY_CLASSES = {
     "input_file": [{"p": "input", "t": "f", "d": "a file called input"}],
     "logfile": [{"p": "antismash.log", "t": "f", "d": "INFO started"}],
     "log_twin": [{"p": "run.log", "t": "f", "d": "somebody else's log"}],
+    "log_sibling": [{"p": "antismash.log.1", "t": "f", "d": "rotated"}],
     "other_file": [{"p": "notes.txt", "t": "f", "d": "precious"}],
     "other_dir": [{"p": "stuff", "t": "d"}, {"p": "stuff/data.bin", "t": "f", "d": "\x00\x01"}],
     "region_gbk": [{"p": "genome.region001.gbk", "t": "f", "d": "LOCUS region"}],
@@ -631,7 +632,7 @@ def enum_dir(max_size: int):
 
 _NAMES = ["input", "Input", "input.txt", "xinput", ".input", "a", "b.txt", ".a", ".cache", "genome.json",
           "genome.gbk", "genome.region001.gbk", "c.region012.gbk", "c.region12.gbk", "x.region001.gbk~",
-          "region001.gbk", ".region001.gbk", "antismash.log", "run.log", "index.html", "svg", "knownclusterblast",
+          "region001.gbk", ".region001.gbk", "antismash.log", "antismash.log.1", "run.log", "index.html", "svg", "knownclusterblast",
           "genome.zip", "regions.js", "sub", "tmp", "é.txt", "with space", "-dash"]
 
 
@@ -921,10 +922,10 @@ def run(ctx) -> None:
     shards = ctx.pick(8, 16)
     max_r, max_m = ctx.pick((2, 3), (4, 5))
     ctx.extra["bounds"] = {"write_enum": {"R_max": max_r, "M_max": max_m},
-                           "dir_enum": {"subset_size_max": ctx.pick(3, 15)},
+                           "dir_enum": {"subset_size_max": ctx.pick(3, 16), "entry_classes": len(ENTRY_CLASSES)},
                            "pipeline_enum": {"R_max": ctx.pick(2, 3), "M_max": ctx.pick(2, 3)}}
     ctx.enum("write_enum", enum_write(max_r, max_m), shards=shards)
-    ctx.enum("dir_enum", enum_dir(ctx.pick(3, 15)), shards=shards)
+    ctx.enum("dir_enum", enum_dir(ctx.pick(3, 16)), shards=shards)
     ctx.enum("pipeline_enum", enum_pipeline(ctx.pick(2, 3), ctx.pick(2, 3)), shards=shards)
     rand_shards = ctx.pick(4, 16)
     ctx.hyp("write", write_specs(), max_examples=ctx.pick(2000, 60000), shards=rand_shards)
